@@ -293,8 +293,9 @@ class Extractor:
                 continue
             if norm(text).startswith('#[cfg(') or norm(text).startswith('#[derive('):
                 if norm(text).startswith('#[derive('):
-                    ed.delete(a, b, 'drop-attr')
-                    self.dropped.append('%s:%d attribute %s on %s' % (rel, line_of(src, a), norm(text), what))
+                    keep_d = [d for d in re.findall(r'\w+', norm(text)[9:]) if d in ('Clone', 'Copy')]
+                    ed.replace(a, b, ('#[derive(%s)]' % ', '.join(keep_d)) if keep_d else '', 'drop-attr')
+                    self.dropped.append('%s:%d attribute %s on %s reduced to derive(%s)' % (rel, line_of(src, a), norm(text), what, ', '.join(keep_d)))
                     continue
                 raise ExtractError('unsupported cfg attribute %s at %s:%d' % (text, rel, line_of(src, a)))
         return keep
@@ -404,6 +405,14 @@ class Extractor:
                 while m[q] != '{':
                     if m[q] in '([': q = match_close(m, q)
                     q += 1
+                if lspec.get('iter'):
+                    im = re.search(r'\bin\b', m[p:q])
+                    if found[ordinal].group(1) != 'for' or not im:
+                        raise ExtractError('loop #%d of fn %s is not a `for .. in ..` loop' % (ordinal, key))
+                    ip = p + im.end()
+                    ed.insert(ip, ' %s:' % lspec['iter'], 'loop-iter:' + key)
+                    self.rewrites.append('%s:%d  fn %s: ghost iterator binder `%s:` inserted into `%s` (Verus syntax for naming the loop iterator in invariants)'
+                                         % (rel, line_of(src, p), key, lspec['iter'], norm(src[p:q])))
                 t = '\n'
                 for kind in ('invariant', 'ensures'):
                     lst = lspec.get(kind) or []
